@@ -924,6 +924,13 @@ def _run_case(case, T, info, res):
                     hits.append(('explicit-text', f'hop {k}: explicit tb string not used verbatim'))
             elif h['arg'] == 't':
                 property_applies = False
+                # an explicit traceback OBJECT is the one whose frames the text has to show (that is what the
+                # parameter is for): every frame line of the given traceback appears in the remote text
+                want = [ln for ln in fmt_own(x, tbobj).splitlines() if ln.startswith('  File ')]
+                missing = [ln for ln in want if ln not in t]
+                if missing:
+                    hits.append(('explicit-tb-ignored', f'hop {k}: {len(missing)} of the {len(want)} frames of the traceback object '
+                                                        f'passed to RemoteException are missing from the remote text'))
             if property_applies:
                 if snap['contain'] is not None and snap['contain'] not in t:
                     hits.append(('text-lost', f'hop {k}: remote text does not contain the originally formatted traceback'))
